@@ -47,8 +47,10 @@ A transaction's private entries enter `hist` at `trPublish`; a discarded transac
 * `trOpen`: write buffer empty **and no frozen buffer pending** (`frozen = none`).  The code ensures the
   first (`rotateMem(0, true)` when `mem.Len() != 0`) but not the second: when the write buffer is empty
   while a flush is still running (e.g. `CompactRange` has just rotated and released the write lock),
-  `OpenTransaction` proceeds.  `Cfg.trOverFrozen` lifts the guard: `C05.trOverFrozen_breaks` is the
-  resulting lost-delete trace.
+  `OpenTransaction` proceeds.  `Cfg.trOverFrozen` lifts the guard: `C05.trOverFrozen_stale_read` (a `Get`
+  right after `Commit` returns the deleted value, because the pending frozen buffer is consulted before
+  the tables) and `C05.trOverFrozen_breaks` (a table compaction then drops the tombstone and the late flush
+  resurrects the value for good) are the resulting traces; both were reproduced against the Go code.
 * `rSeq`/`rSeqSnap`: the reader's position stays registered (snapshot list element, or `snap.mu.RLock`)
   until it has pinned the version (`rRelease` needs `ver? ≠ none`); `rMems` before `rVer`
   (`Cfg.verFirst` lifts this: `C05.verFirst_breaks`); both buffers under one `memMu.RLock`.
@@ -174,6 +176,17 @@ def univ (σ : State) : List Entry := σ.hist ++ privOf σ.tr
 /-- what a reader that pinned buffers `mf` and table collection `ver` consults -/
 def readSrc (σ : State) (mf : Nat × Option Nat) (ver : List Entry) : List Entry :=
   getBuf σ mf.1 ++ optBuf σ mf.2 ++ ver
+
+/-- `DB.get` as the code does it, at the level of entry collections: the sources are consulted in order
+(write buffer, frozen buffer, version) and the first one that holds an entry of `k` at or below `s` decides
+(`memGet` returning `ok`), even if it is a deletion.  The reader steps use `view` of the union instead;
+`C05.lookup_order_irrelevant` shows that for every reachable reader this is the same. -/
+def scView (c : UCmp) : List (List Entry) → Bytes → Nat → Option Bytes
+  | [], _, _ => none
+  | S :: rest, k, s =>
+    match newest c S k s with
+    | some e => e.hit.toOption
+    | none => scView c rest k s
 
 /-- `es` carry the consecutive sequence numbers `b+1, b+2, …` -/
 def consec : Nat → List Entry → Bool
